@@ -2,6 +2,9 @@
 from ..rules import liveness as L
 from ..rules import shutdown as S
 from ..rules import timeouts as T
+from ..rules import scenario as SC
+from ..rules import broken as B
+from ..rules import contain as C
 
 EXPLANATION = (
     "Static analysis. Decides: shutdown() flags under the lock, wakes, joins only conditionally on `wait` under the lock "
@@ -31,5 +34,11 @@ def run(e, R, tier):
         L.r_nulled,
         L.r_mgr_self,
         T.r_respawn_guard,
+        SC.r_scn_wakeprim,
+        SC.r_scn_worker,
+        SC.r_scn_manager,
+        SC.r_scn_start,
+        B.r_mgr_total,
+        C.r_feeder,
     ])
     R.trust("threading._register_atexit hooks run before non-daemon threads are joined; weakref callbacks run when the referent dies")
